@@ -174,10 +174,6 @@ package commands
 //@   assumed
 //@   props C16
 //@   modifies fresh
-//@ func (*github.com/git-lfs/git-lfs/v3/locking.Client).UnlockFileById
-//@   assumed
-//@   props C16
-//@   modifies fresh
 //@ func (*github.com/git-lfs/git-lfs/v3/tq.Meter).Finish
 //@   assumed
 //@   noeffect
